@@ -3,3 +3,4 @@ import GeoVerif.Props.C07
 import GeoVerif.Props.C13
 import GeoVerif.Props.C16
 import GeoVerif.Props.C17
+import GeoVerif.Props.C18
